@@ -1113,7 +1113,7 @@ func (e *entFn) proveIndexBelowLen(ix *ast.IndexExpr) (bool, string) {
 	s := site{pos: ix.Pos(), anc: ix}
 	k := keyCtx{e: e, s: &s}
 	li := k.norm(ix.Index)
-	lenKey := "len(" + k.key(ix.X) + ")~" + e.barrierVersion(nil, s)
+	lenKey := "len(" + k.key(ix.X) + ")"
 	ll := linForm{terms: map[string]int64{lenKey: 1}}
 	goal := Atom("lt(" + li.String() + "," + ll.String() + ")")
 	ok, how := e.Prove(ix, goal)
